@@ -1,2 +1,96 @@
-(* C09 — property theorems (being built). *)
-From Klog Require Import Base.Prelude Model.Lines Model.Parser.
+(* C09 — printing a file yields an equivalent canonical file (round trip, fixed point).
+   Property theorems only; each is closed by [exact <lemma>] and followed by Print Assumptions.
+   print_records is the unstyled serialiser (Model/Serialiser.v); canon / normalise / wf_records / no_trailing_cr are
+   defined in Spec/Spec.v. All statements are proved at full strength (they rest on C01_parse_conforming). *)
+From Klog Require Import Base.Prelude Base.Utf8 Model.Calendar Model.Values Model.Record Model.Lines Model.Parser Model.Serialiser
+  Spec.Spec Proofs.SpecValues Proofs.Print.
+Open Scope Z_scope.
+
+(* the printed text is the rendering of the canonical specification document: four-space indentation, LF, one blank line
+   between records, should-total only when non-zero, canonical literals *)
+Theorem C09_print_is_canonical_render : forall rs, wf_records rs -> print_records rs = render (canon rs).
+Proof. exact print_is_canonical_render. Qed.
+Print Assumptions C09_print_is_canonical_render.
+
+(* the printed text is a valid file and parses to the same records: dates, summaries, entry kinds, values and notation
+   flags unchanged; only a zero should-total is dropped (and an entry without summary lines reads as one empty line) *)
+Theorem C09_print_parse_roundtrip : forall rs, wf_records rs -> no_trailing_cr rs = true ->
+  parse_text (print_records rs) = Ok (Parsed (normalise rs) (blocks_of (print_records rs))).
+Proof. exact print_parse_roundtrip. Qed.
+Print Assumptions C09_print_parse_roundtrip.
+
+(* the guard no_trailing_cr is needed: a summary line ending in CR does not survive (finding K2).
+   Witness: the record 2020-01-01 with the summary line "foo\r", printed as "2020-01-01\nfoo\r\n", read back as "foo" *)
+Theorem C09_print_parse_cr_refuted : exists rs, wf_records rs /\
+  forall bs, parse_text (print_records rs) <> Ok (Parsed (normalise rs) bs).
+Proof. exact print_parse_cr_refuted. Qed.
+Print Assumptions C09_print_parse_cr_refuted.
+
+(* printing what was read back reproduces the text: print is a fixed point after one round *)
+Theorem C09_print_idempotent : forall rs, print_records (normalise rs) = print_records rs.
+Proof. exact print_idempotent. Qed.
+Print Assumptions C09_print_idempotent.
+
+Theorem C09_normalise_idempotent : forall rs, normalise (normalise rs) = normalise rs.
+Proof. exact normalise_idempotent. Qed.
+Print Assumptions C09_normalise_idempotent.
+
+(* parse . print . parse = parse, for every document of the specification *)
+Theorem C09_parse_print_parse : forall d, wf d -> no_trailing_cr (denote d) = true ->
+  parse_text (render d) = Ok (Parsed (denote d) (blocks_of (render d))) /\
+  parse_text (print_records (denote d)) = Ok (Parsed (normalise (denote d)) (blocks_of (print_records (denote d)))).
+Proof. exact parse_print_parse_both. Qed.
+Print Assumptions C09_parse_print_parse.
+
+(* literal normalisation: printing the value of any time literal gives the canonical spelling of that same value;
+   durations: parse (print d) = the same minutes with the notation flags ToString shows *)
+Theorem C09_literal_normalisation_time : forall t, wf_time t = true ->
+  exists t', parse_time (render_time t) = Ok t' /\ print_time t' = render_time (canon_time t') /\ denote_time (canon_time t') = t'.
+Proof. exact literal_normalisation_time. Qed.
+Print Assumptions C09_literal_normalisation_time.
+
+Theorem C09_literal_normalisation_duration : forall d, wf_dur d = true ->
+  exists d', parse_duration (render_dur d) = Ok d' /\ print_duration d' = render_dur (canon_dur d').
+Proof. exact literal_normalisation_duration. Qed.
+Print Assumptions C09_literal_normalisation_duration.
+
+Theorem C09_literal_normalisation_examples :
+  (exists t, parse_time b!"08:00" = Ok t /\ print_time t = b!"8:00")
+  /\ (exists t, parse_time b!"24:00" = Ok t /\ print_time t = b!"0:00>")
+  /\ (exists t, parse_time b!"<24:00" = Ok t /\ print_time t = b!"0:00")
+  /\ (exists t, parse_time b!"12:05am" = Ok t /\ print_time t = b!"12:05am")
+  /\ (exists d, parse_duration b!"90m" = Ok d /\ print_duration d = b!"1h30m")
+  /\ (exists d, parse_duration b!"+0h" = Ok d /\ print_duration d = b!"+0m")
+  /\ (exists d, parse_duration b!"-00h05m" = Ok d /\ print_duration d = b!"-5m").
+Proof. exact literal_normalisation_examples. Qed.
+Print Assumptions C09_literal_normalisation_examples.
+
+(* ---------- non-vacuity ---------- *)
+
+Definition example_records : list record :=
+  [ {| rec_date := {| dt := {| c_year := 2024; c_month := 2; c_day := 29 |}; dt_dashes := false |};
+       rec_should := Some 0;
+       rec_summary := [b!"Leap day #work"];
+       rec_entries :=
+         [ {| e_value := VRange {| r_start := {| t_hour := 23; t_min := 30; t_shift := -1; t_24h := false |};
+                                   r_end := {| t_hour := 0; t_min := 0; t_shift := 1; t_24h := true |}; r_spaces := true |};
+              e_summary := [b!"8:00-9:00 1h"; b!"  more"] |};
+           {| e_value := VDuration {| d_mins := -65; d_plus := false; d_zsign := 0 |}; e_summary := [] |};
+           {| e_value := VOpen {| o_start := {| t_hour := 9; t_min := 0; t_shift := 0; t_24h := true |}; o_spaces := false; o_extra := 2 |};
+              e_summary := [[]] |} ] |};
+    {| rec_date := {| dt := {| c_year := 0; c_month := 1; c_day := 1 |}; dt_dashes := true |};
+       rec_should := Some (-90); rec_summary := [];
+       rec_entries := [ {| e_value := VDuration {| d_mins := 0; d_plus := true; d_zsign := 1 |}; e_summary := [[]] |} ] |} ].
+
+Example C09_nonvacuous :
+  wf_records example_records /\ no_trailing_cr example_records = true
+  /\ print_records example_records =
+     b!"2024/02/29" ++ [10%N] ++ b!"Leap day #work" ++ [10%N]
+     ++ b!"    <11:30pm - 0:00> 8:00-9:00 1h" ++ [10%N] ++ b!"          more" ++ [10%N]
+     ++ b!"    -1h5m" ++ [10%N] ++ b!"    9:00-???" ++ [10%N] ++ [10%N]
+     ++ b!"0000-01-01 (-1h30m!)" ++ [10%N] ++ b!"    +0m" ++ [10%N]
+  /\ normalise example_records <> example_records.
+Proof.
+  split; [vm_compute; reflexivity|]. split; [vm_compute; reflexivity|]. split; [vm_compute; reflexivity|].
+  intros H. vm_compute in H. discriminate.
+Qed.
